@@ -269,18 +269,22 @@ func bedDrive(args []string) error {
 				want = append(want, bedTruncate(before))
 			}
 		}
-		if sid == 5 { // every byte value next to a field separator: at the start and at the end of a text field, four fields
-			n = 4
+		if sid == 5 { // every byte value next to a field separator - at the start and at the end of a text field that is not the last
+			// one - at every position of the line modulo 8 (code that looks at several bytes at a time), six fields
+			n = 6
 			for v := 0; v < 256; v++ {
 				if v == '\t' || v == '\n' || v == '\r' {
 					continue
 				}
-				b := bedRecord(r, n)
-				b.Chrom, b.Name = "c"+string([]byte{byte(v)}), string([]byte{byte(v)})+"n"
-				if v%2 == 1 {
-					b.Name = string([]byte{byte(v)})
+				for _, pad := range []int{0, 2, 5} {
+					b := bedRecord(r, n)
+					b.ChromStart, b.ChromEnd = 1, 2
+					b.Chrom, b.Name = strings.Repeat("c", 1+pad)+string([]byte{byte(v)}), string([]byte{byte(v)})+"n"
+					if (v+pad)%2 == 1 {
+						b.Name = string([]byte{byte(v)})
+					}
+					write(b, true)
 				}
-				write(b, true)
 			}
 			nrec = 0
 		}
